@@ -440,6 +440,17 @@ pub fn check(ctx: &Ctx) -> Check {
             strategy: Box::new(|| strategy(14).boxed()),
             eval: Box::new(eval_cli),
         }),
+        Box::new(RandomPart {
+            name: "cli-concat-permute-large-cohort",
+            rule: "the same relations on cohorts of 86..700 samples (2..6 records whose numbers of called chromosomes differ, rare and common variants, targets from tiny to half of the cohort): whatever a record leaves behind in tables that grow with the number of chromosomes (factorials, ln-gamma, cached rows) shows as a dependence on the order",
+            cases: ctx.tier.pick(100, 2500),
+            strategy: Box::new(|| {
+                (crate::props::c02::large_strategy(), prop::collection::vec(any::<u16>(), 26))
+                    .prop_map(|(c, perm_draws)| Case { cs: c.cs, map: c.map, m: Some(c.m), perm_draws })
+                    .boxed()
+            }),
+            eval: Box::new(eval_cli),
+        }),
         Box::new(crate::engine::EnumPart {
             name: "cli-long-streams",
             rule: "streams of 1 025, 2 500, 4 097, 9 000, 20 000 (thorough also 16 385 and 70 000) records over two contigs with a pseudo-random mix of complete / missing / half-missing / multiallelic genotypes, two populations, with and without projection: the whole equals the reference model, create(A++B) == create(A)+create(B), reversal gives the same spectrum (exact without projection); sizes straddle plausible block sizes of an accumulator",
